@@ -50,6 +50,19 @@ var propConfigs = map[string]propConfig{
 			"external code (gorilla/websocket, ugorji codec, net/http, reflect) is trusted not to panic outwards",
 			"no map holds more than 2^62 entries",
 		}},
+	"C17": {ID: "C17", Level: "proof", SafetyOnly: true,
+		Sweep:     []string{repoMod + "/client."},
+		SweepSkip: sweepSkipC17,
+		Explain: "Zero-annotation safety sweep of the client package plus contracts where context is needed: every function that processes what the router sends (run, runReceiveFromRouter, runHandleEvent, runHandleInvocation and its goroutines, runHandleInterrupt, runSignalReply, joinRealm, handleCRAuth, waitForReply*, prepareCallResultMessage, the payload-passthru unpackers, the blocking API calls that interpret replies) has one obligation per possible panic, discharged for arbitrary router messages: any message type with any details/arguments of any dynamic type.",
+		Assume: []string{
+			"functions without contract: pointer parameters/receivers and method-bearing interface parameters (other than error) are not nil; the latter is asserted at every call site of such a function",
+			"application-supplied values are well-formed: handlers and callbacks passed to Subscribe/Register/Call are functions, contexts are not nil (contracts on the API entry points)",
+			"messages received from a peer are real messages (channel invariant checked at every send in a verified function; the remote transports' deserializers are trusted to return a message or an error)",
+			"hangs, goroutine leaks, Close() returning and timing coincidences are not decided",
+		}},
+	"C16": {ID: "C16", Level: "proof",
+		Explain: "Sequential core of reply routing in the client: a reply is offered only on the channel registered under the request id the reply itself carries (runReceiveFromRouter call-site universal + runSignalReply send-site universal), and a waiter gets a real message or an error; on context cancellation a CANCEL naming this call is sent to the router.",
+		Assume: []string{"schedule-dependent parts (progress handler never after return, replies coinciding with timeouts, handler serialisation) are not decided", "context.Context.Err() is non-nil once Done() has fired (listed assumption)"}},
 	"C07": {ID: "C07", Level: "other", Structural: []string{"nonblocking"},
 		Explain: "Effect contract 'nonblocking' on every function that runs on the broker or dealer goroutine (sync*, trySend, prepareEvent, meta-event builders): checked on the SSA and call graph - no blocking send, receive or select on any path including in-place callees, so every send to a peer from there is a select with default; the in-process router-to-client queue is created with exactly the configured capacity (LinkedPeersQSize postcondition).",
 		Assume: []string{"deadlock freedom and 'eventually processed' are not decided: wait-for cycles between goroutines are not a per-function property", "the rawsocket/websocket peers' queue creation is not under contract (only the in-process peer is)"}},
@@ -178,5 +191,15 @@ var sweepSkipC04 = []string{
 	// HTTP / websocket / rawsocket server glue: depends on net/http and gorilla objects outside the model
 	"router.WebsocketServer)", "router.RawSocketServer)", "router.checkOrigin", "router.protocol",
 	// package initialisers
+	".init",
+}
+
+var sweepSkipC17 = []string{
+	// connection set-up from application configuration (URLs, TLS, cookies)
+	"client.ConnectNet", "client.ConnectLocal", "client.CookieURL",
+	// packing of the application's own payload-passthru options
+	"client.packE2EEPayload", "client.packPPTPayload",
+	// sender of the application's own progressive call chunks (application-supplied options and callback)
+	"client.Client).CallProgressive$2",
 	".init",
 }
